@@ -42,6 +42,7 @@ def run(ctx):
     ctx.rule(_fresh_buffers)
     ctx.rule(energy_impulse)
     ctx.rule(si_finalize, "R-C03-frame-count")
+    ctx.rule(log_floor_live)
 
 
 def _si(prog):
@@ -528,3 +529,10 @@ def no_module_state(ctx, R="R-C03-fresh-buffers"):
             n += 1
             no_shared_state(ctx, R, fi, "ShortIntegrationFrameComputer.%s" % fi.name, allow_self=True)
     ctx.need(n >= 5, R, "methods of ShortIntegrationFrameComputer not found")
+
+
+def log_floor_live(ctx, R="R-C03-logfloor"):
+    """config.LOG_FLOOR_VALUE is documented as tunable: the floor is read through the config module when a frame is computed,
+    not captured in a default argument, a module-level constant, a from-import or (C02: the constructor)"""
+    from .c07 import config_live
+    config_live(ctx, R, floor=3, module="compute", attr="LOG_FLOOR_VALUE")
